@@ -1170,11 +1170,14 @@ package http2
 //@ ensures place: dynplace(sc.enc)
 
 //@ func NewStream
-//@ props C13 C08
+//@ props C13 C08 C01 C20
 //@ opt noframe=true
 //@ ensures fresh: r0 != nil && fresh(r0) && r0.id == id && r0.window == win && r0.state == 0 && !r0.headersFinished && r0.ctx == nil &&
 //@ |   !r0.responded && !r0.handlerRunning && !r0.abandoned && r0.recvBody == 0 && r0.headerListSize == 0 && !r0.hasContentLength &&
 //@ |   len(r0.previousHeaderBytes) == 0 && len(r0.pendingData) == 0 && r0.bodyStream == nil && !r0.regularSeen
+//@ # nothing of the pooled object's previous life is left: every field the request and response paths read is set here
+//@ ensures rest: !r0.pseudoMethod && !r0.pseudoScheme && !r0.pseudoPath && !r0.pseudoAuthority && r0.contentLength == 0 && !r0.pendingEnd &&
+//@ |   r0.bodySize == 0 && r0.bodyRead == 0 && r0.origType == 0 && len(r0.path) == 0 && r0.scheme == "https"
 
 // ---------------------------------------------------------------------------
 // Client (conn.go): send windows, DATA framing, receive credit, response fields
@@ -1742,3 +1745,53 @@ package http2
 //@ requires recv: data != nil
 //@ modifies *data
 //@ ensures clean: !data.endStream && !data.hasPadding && len(data.b) == 0
+
+//@ func (*Priority).Reset
+//@ props C05 C08
+//@ requires recv: pry != nil
+//@ modifies *pry
+//@ ensures clean: pry.stream == 0 && pry.weight == 0
+
+//@ func (*RstStream).Reset
+//@ props C05 C08
+//@ requires recv: rst != nil
+//@ modifies *rst
+//@ ensures clean: rst.code == 0
+
+//@ func (*Settings).Reset
+//@ props C05 C18 C06
+//@ requires recv: st != nil
+//@ modifies *st
+//@ # a SETTINGS body starts from the protocol defaults (RFC 7540 6.5.2) and says nothing about the initial window yet
+//@ ensures clean: st.tableSize == 4096 && st.maxStreams == defaultConcurrentStreams && st.windowSize == 65535 && st.frameSize == 16384 &&
+//@ |   !st.enablePush && st.headerSize == 0 && len(st.rawSettings) == 0 && !st.ack && !st.hasWindowSize
+
+//@ func (*PushPromise).Reset
+//@ props C05
+//@ requires recv: pp != nil
+//@ modifies *pp
+//@ ensures clean: !pp.pad && !pp.ended && pp.stream == 0 && len(pp.header) == 0
+
+//@ func (*Ping).Reset
+//@ props C05
+//@ requires recv: p != nil
+//@ modifies *p
+//@ ensures clean: !p.ack
+
+//@ func (*GoAway).Reset
+//@ props C05 C10
+//@ requires recv: ga != nil
+//@ modifies *ga
+//@ ensures clean: ga.stream == 0 && ga.code == 0 && len(ga.data) == 0
+
+//@ func (*WindowUpdate).Reset
+//@ props C05 C06
+//@ requires recv: wu != nil
+//@ modifies *wu
+//@ ensures clean: wu.increment == 0
+
+//@ func (*Continuation).Reset
+//@ props C05 C01
+//@ requires recv: c != nil
+//@ modifies *c
+//@ ensures clean: !c.endHeaders && len(c.rawHeaders) == 0
